@@ -1780,7 +1780,8 @@ func (rn *runner) createBody(api string) *N {
 		if p.kind == "vectorFlat" || p.kind == "vectorVamana" {
 			p.dim = vh.Pick(g.r, []int{1, 2, 3, 4, 8, 32, 64})
 			p.metric = vh.Pick(g.r, []string{"euclidean", "cosine", "dot", "hamming", "jaccard", "haversine"})
-			if p.metric == "haversine" {
+			if p.metric == "haversine" && !g.r.Chance(40) {
+				// (otherwise: haversine over a vector size other than 2 must be refused, with and without a quantizer entry)
 				p.dim = 2
 			}
 			switch g.r.Intn(8) {
